@@ -99,17 +99,17 @@ def run(ctx):
         combos = combos[:6]
     from concurrent.futures import ThreadPoolExecutor
     with ThreadPoolExecutor(max_workers=min(12, len(combos))) as pool:
-        futs = {c: pool.submit(run_worker, "/repo", c[0], c[1]) for c in combos}
+        futs = {c: pool.submit(run_worker, common.REPO, c[0], c[1]) for c in combos}
         # tensor-name configuration: scratch copy of the package outside /repo and /verif
         tmp = tempfile.mkdtemp(prefix="c19_pkg_")
         try:
-            shutil.copytree("/repo/adcgen", os.path.join(tmp, "adcgen"), ignore=shutil.ignore_patterns("__pycache__"))
+            shutil.copytree(os.path.join(common.REPO, "adcgen"), os.path.join(tmp, "adcgen"), ignore=shutil.ignore_patterns("__pycache__"))
             cfg = dict(DEFAULTS)
             cfg.update(RENAME)
             with open(os.path.join(tmp, "adcgen", "tensor_names.json"), "w") as f:
                 json.dump(cfg, f)
             fut_cfg = pool.submit(run_worker, tmp, 0, 0)
-            fut_norm = pool.submit(run_worker, "/repo", 0, 0, "norm", (4 if quick else 5,))
+            fut_norm = pool.submit(run_worker, common.REPO, 0, 0, "norm", (4 if quick else 5,))
             results = {c: f.result() for c, f in futs.items()}
             res_cfg = fut_cfg.result()
             res_norm = fut_norm.result()
